@@ -14,7 +14,7 @@ from sim.core import H, Violation, digest
 ID = "C05"
 LEVEL = "exploration"
 BATCH = 4
-QUICK_WORLDS = 320
+QUICK_WORLDS = 480
 THOROUGH_BUDGET_S = 900
 RUN_TIMEOUT = 180
 RULE = ("world = (model class accepting optimization_options, tiny instance satisfying the model's documented assumptions) from the seed; "
